@@ -123,7 +123,7 @@ func (m *Model) clone() *Model {
 		c.KV[k] = append([]byte{}, v...)
 	}
 	for n, mi := range m.Idx {
-		ci := &mIdx{Dim: mi.Dim, Cfg: mi.Cfg, Prec: mi.Prec, Live: map[string]*mVec{}, Maint: mi.Maint, AutoLink: mi.AutoLink}
+		ci := &mIdx{Dim: mi.Dim, Cfg: mi.Cfg, Prec: mi.Prec, Live: map[string]*mVec{}, Maint: mi.Maint, AutoLink: mi.AutoLink, Range: mi.Range}
 		for id, v := range mi.Live {
 			ci.Live[id] = &mVec{Base: append([]float32(nil), v.Base...), Meta: normMeta(v.Meta)}
 		}
@@ -251,6 +251,22 @@ func c02Explained(d *Dump, states []*Model, lo, hi int) string {
 		}
 		if !cfgOK {
 			return fmt.Sprintf("index %q was recovered with a configuration it never had between the durable floor and the crash: %s", n, why)
+		}
+		// the int8 quantiser range decides how every later vector is stored: it must be one the index had
+		if di.Prec == "int8" {
+			rangeOK := false
+			var had []float32
+			for _, s := range rng {
+				if mi := s.Idx[n]; mi != nil && mi.Prec == "int8" {
+					had = append(had, mi.Range)
+					if mi.Range == di.AbsMax {
+						rangeOK = true
+					}
+				}
+			}
+			if !rangeOK && len(had) > 0 {
+				return fmt.Sprintf("index %q (int8) was recovered with quantiser range %g; between the durable floor and the crash its range was one of %v", n, di.AbsMax, had)
+			}
 		}
 		// vectors
 		ids := map[string]bool{}
